@@ -326,6 +326,8 @@ def _next_op(rng, sh):
         _after_connect(sh, ok)
         return "reconnect " + ("ok" if ok else "refuse")
     if not sh.connected:
+        if r < 0.04:
+            return "disconnect"         # disconnect() before the CONNACK is processed
         if r < 0.5:
             return _connack(rng, sh)
         if r < 0.65:
@@ -341,6 +343,8 @@ def _next_op(rng, sh):
             return f"tick {rng.choice([1000, 10000, 60000])}"
         return "loop_misc"
     # connected
+    if r < 0.012:
+        return f"rx connack {rng.choice([0, 1])} {rng.choice([0, 0, 2, 5])}"      # unexpected second CONNACK
     if r < 0.22:
         return _publish(rng, sh)
     if r < 0.45 and sh.out:
